@@ -322,22 +322,21 @@ Definition md004 (c : c004) (lsts : list lst) : verdict :=
 (* MD032: lists surrounded by blank lines; a list directly inside a list item is exempt.  Reported at the list (the
    harness counts a report on any line of the list or on the line after it for the list). *)
 Definition in_item (l : lst) : bool := match rev (l_path l) with KItem _ :: _ => true | _ => false end.
+Definition md032_side (ls : list str) (lvs : list leaf) (l : lst) (ln : nat) : bool * bool :=
+  if (ln <? 1) || (length ls <? ln) then (false, false)
+  else match leaf_at lvs ln with
+       | Some p => if same_path (lpath p) (l_path l) then (true, false) else (false, true)
+       | None => if is_blank (line_at ls ln) then (false, false) else (false, true)
+       end.
+Definition md032_per (ls : list str) (lvs : list leaf) (l : lst) : list nat * list nat :=
+  if in_item l then ([], [])
+  else let '(m1, o1) := md032_side ls lvs l (l_sl l - 1) in
+       let '(m2, o2) := md032_side ls lvs l (S (l_el l)) in
+       (* a list that ends with an empty item: its last line shows a marker only, left open like other marker-only lines *)
+       let '(m2, o2) := if blank_at lvs (l_el l) then (false, m2 || o2) else (m2, o2) in
+       (if m1 || m2 then [l_sl l] else [], if o1 || o2 then [l_sl l] else []).
 Definition md032 (ls : list str) (lvs : list leaf) (lsts : list lst) : verdict :=
-  let n := length ls in
-  let side (l : lst) (ln : nat) : bool * bool :=
-    if (ln <? 1) || (n <? ln) then (false, false)
-    else match leaf_at lvs ln with
-         | Some p => if same_path (lpath p) (l_path l) then (true, false) else (false, true)
-         | None => if is_blank (line_at ls ln) then (false, false) else (false, true)
-         end in
-  let per l :=
-    if in_item l then ([], [])
-    else let '(m1, o1) := side l (l_sl l - 1) in
-         let '(m2, o2) := side l (S (l_el l)) in
-         (* a list that ends with an empty item: its last line shows a marker only, left open like other marker-only lines *)
-         let '(m2, o2) := if blank_at lvs (l_el l) then (false, m2 || o2) else (m2, o2) in
-         (if m1 || m2 then [l_sl l] else [], if o1 || o2 then [l_sl l] else []) in
-  let rs := map per lsts in
+  let rs := map (md032_per ls lvs) lsts in
   mkv (flat_map fst rs) (flat_map snd rs).
 
 (* ---------------------------------------------------------------- all rules on one document.
